@@ -70,6 +70,7 @@ type Link struct {
 	LastErr     error
 	ShortReads  int // reads that returned fewer bytes than asked while more were pending
 	MaxAsk      int
+	SeekPast    int // bytes a Seek went beyond the end of the data
 }
 
 func NewLink(data []byte, sched Schedule, fault *ReadFault) *Link {
@@ -227,4 +228,129 @@ func (s *Sink) Write(p []byte) (int, error) {
 	s.Buf = append(s.Buf, p...)
 	s.Calls = append(s.Calls, len(p))
 	return len(p), nil
+}
+
+// FatLink is a Link that also offers every optional reader capability the standard
+// library knows (io.Seeker, io.ReaderAt, io.WriterTo, io.ByteScanner): code that
+// type-asserts its reader for a fast path meets it here. Seeking moves Pos; all data
+// movement still honours the fault trace.
+type FatLink struct {
+	*Link
+	lastByte int
+	Seeks    int
+	WriteTos int
+}
+
+func NewFatLink(l *Link) *FatLink { return &FatLink{Link: l, lastByte: -1} }
+
+func (f *FatLink) ReadByte() (byte, error) {
+	var p [1]byte
+	for {
+		n, err := f.Link.Read(p[:])
+		if n == 1 {
+			f.lastByte = int(p[0])
+			return p[0], nil
+		}
+		if err != nil {
+			return 0, err
+		}
+	}
+}
+
+func (f *FatLink) UnreadByte() error {
+	if f.lastByte < 0 || f.Pos == 0 {
+		return errors.New("simnet: invalid UnreadByte")
+	}
+	f.Pos--
+	f.lastByte = -1
+	return nil
+}
+
+func (f *FatLink) Seek(offset int64, whence int) (int64, error) {
+	f.Seeks++
+	var abs int64
+	switch whence {
+	case io.SeekStart:
+		abs = offset
+	case io.SeekCurrent:
+		abs = int64(f.Pos) + offset
+	case io.SeekEnd:
+		abs = int64(len(f.Data)) + offset
+	default:
+		return 0, errors.New("simnet: invalid whence")
+	}
+	if abs < 0 {
+		return 0, errors.New("simnet: negative position")
+	}
+	// like a file, seeking past the end is allowed; reads there return EOF
+	if abs > int64(len(f.Data)) {
+		f.Pos = len(f.Data)
+		f.SeekPast += int(abs) - len(f.Data)
+		return abs, nil
+	}
+	f.Pos = int(abs)
+	return abs, nil
+}
+
+func (f *FatLink) ReadAt(p []byte, off int64) (int, error) {
+	if off >= int64(len(f.Data)) {
+		return 0, io.EOF
+	}
+	n := copy(p, f.Data[off:])
+	if n < len(p) {
+		return n, io.EOF
+	}
+	return n, nil
+}
+
+func (f *FatLink) WriteTo(w io.Writer) (int64, error) {
+	f.WriteTos++
+	var total int64
+	buf := make([]byte, 512)
+	for {
+		n, err := f.Link.Read(buf)
+		if n > 0 {
+			m, werr := w.Write(buf[:n])
+			total += int64(m)
+			if werr != nil {
+				return total, werr
+			}
+		}
+		if err == io.EOF {
+			return total, nil
+		}
+		if err != nil {
+			return total, err
+		}
+	}
+}
+
+// FatSink is a Sink that also implements io.StringWriter, io.ByteWriter and
+// io.ReaderFrom; every path counts as Write calls and honours the fault trace.
+type FatSink struct{ *Sink }
+
+func (f FatSink) WriteString(s string) (int, error) { return f.Sink.Write([]byte(s)) }
+func (f FatSink) WriteByte(b byte) error {
+	_, err := f.Sink.Write([]byte{b})
+	return err
+}
+func (f FatSink) ReadFrom(r io.Reader) (int64, error) {
+	var total int64
+	buf := make([]byte, 512)
+	for {
+		n, err := r.Read(buf)
+		if n > 0 {
+			m, werr := f.Sink.Write(buf[:n])
+			total += int64(m)
+			if werr != nil {
+				return total, werr
+			}
+		}
+		if err == io.EOF {
+			return total, nil
+		}
+		if err != nil {
+			return total, err
+		}
+	}
 }
